@@ -603,11 +603,20 @@ impl World {
             .filter(|r| !self.is_held(r))
             .filter(|r| match r.method.as_str() {
                 "pay" => false,
-                "waitsendpay" => s.node.waitsendpay(&r.params).is_some(),
+                // held while its part is pending - unless the caller passed `timeout` and that much
+                // (virtual) time has passed: then lightningd answers error 200
+                "waitsendpay" => s.node.waitsendpay(&r.params).is_some() || Self::waitsendpay_timed_out(&s, r),
                 _ => true,
             })
             .map(|r| r.uid)
             .collect()
+    }
+
+    fn waitsendpay_timed_out(s: &Shared, r: &PendingRpc) -> bool {
+        match r.params.get("timeout").and_then(|t| t.as_u64()) {
+            Some(t) => s.now_ms() >= r.arrived_ms + t * 1000,
+            None => false,
+        }
     }
 
     fn running_pays(&self) -> Vec<u64> {
@@ -957,6 +966,9 @@ impl World {
         if let Some((down_s, lose_last)) = self.crash_pending.take() {
             return LifeEnd::Crash { down_s, lose_last, reverse: false };
         }
+        if self.scn.probe {
+            self.probe_same_lifetime(lt).await;
+        }
         LifeEnd::Done
     }
 
@@ -1068,6 +1080,61 @@ impl World {
     /// quiesced) a fully funded single HTLC for payment 0 with a cooperative
     /// recipient is delivered and the world drained. A failing probe that
     /// leaves the stored image unchanged is a fixpoint, hence permanent.
+    /// appends a fully funded HTLC for payment 0 (cooperative recipient) to the scenario
+    fn push_probe_htlc(&mut self, need: u64) -> Option<usize> {
+        let height = self.shared.lock().unwrap().node.height;
+        self.scn.payments[0].recipient_ok = true;
+        if self.scn.payments[0].drain_parts == 0 {
+            self.scn.payments[0].drain_parts = 1;
+        }
+        let rel = self.scn.cfg.policy_delta as i64 + 10;
+        let h = HtlcSpec {
+            pay: 0,
+            hash_of: None,
+            amount_msat: need,
+            total_msat: Some(need),
+            forward_msat: Some(need),
+            cltv_expiry: (height as i64 + rel).min(u32::MAX as i64) as u32,
+            cltv_rel: rel,
+            forward: false,
+            meta: Meta::Normal,
+            extra: vec![],
+            raw_payload: None,
+        };
+        self.scn.htlcs.push(h);
+        let idx = self.scn.htlcs.len() - 1;
+        let class = self.scn.classify(idx);
+        if !matches!(class, Class::Trampoline { .. }) {
+            self.scn.htlcs.pop();
+            return None;
+        }
+        self.classes.push(class.clone());
+        self.mon.add_htlc(&self.scn, idx, class);
+        self.delivered.push(false);
+        self.answered.push(None);
+        Some(idx)
+    }
+
+    /// C09, first probe: a later fully funded set in the SAME process (no restart), e.g. after a single
+    /// failed datastore write. Unanswered or failed with an unchanged stored image = stuck.
+    async fn probe_same_lifetime(&mut self, lt: &Lifetime) {
+        self.in_probe = true;
+        self.crash_pending = None;
+        let p0 = self.scn.payments[0].clone();
+        let need = needed_total(&self.scn.cfg, p0.deliver_amount());
+        if need == u64::MAX || need > 1_000_000_000_000_000_000 {
+            return;
+        }
+        let before = self.shared.lock().unwrap().node.image_of(&p0.hash());
+        let Some(idx) = self.push_probe_htlc(need) else { return };
+        self.shared.lock().unwrap().push(Ev::ProbeStart { h: idx });
+        self.deliver(lt, idx, false);
+        self.drain(lt).await;
+        let after = self.shared.lock().unwrap().node.image_of(&p0.hash());
+        let resolved = self.answered[idx].as_ref().map(|r| r["result"] == "resolve").unwrap_or(false);
+        self.mon.probe_result(idx, 100, resolved, before == after, self.answered[idx].clone());
+    }
+
     fn run_probes(&mut self) {
         self.in_probe = true;
         self.crash_pending = None;
@@ -1079,36 +1146,7 @@ impl World {
         }
         for round in 0..3 {
             let before = self.shared.lock().unwrap().node.image_of(&p0.hash());
-            let height = self.shared.lock().unwrap().node.height;
-            self.scn.payments[0].recipient_ok = true;
-            if self.scn.payments[0].drain_parts == 0 {
-                self.scn.payments[0].drain_parts = 1;
-            }
-            let rel = self.scn.cfg.policy_delta as i64 + 10;
-            let h = HtlcSpec {
-                pay: 0,
-                hash_of: None,
-                amount_msat: need,
-                total_msat: Some(need),
-                forward_msat: Some(need),
-                cltv_expiry: (height as i64 + rel).min(u32::MAX as i64) as u32,
-                cltv_rel: rel,
-                forward: false,
-                meta: Meta::Normal,
-                extra: vec![],
-                raw_payload: None,
-            };
-            self.scn.htlcs.push(h);
-            let idx = self.scn.htlcs.len() - 1;
-            let class = self.scn.classify(idx);
-            if !matches!(class, Class::Trampoline { .. }) {
-                self.scn.htlcs.pop();
-                return;
-            }
-            self.classes.push(class.clone());
-            self.mon.add_htlc(&self.scn, idx, class);
-            self.delivered.push(false);
-            self.answered.push(None);
+            let Some(idx) = self.push_probe_htlc(need) else { return };
             {
                 let mut s = self.shared.lock().unwrap();
                 s.pending.clear();
